@@ -132,6 +132,12 @@ Definition c13_pred (args : list val) : bool :=
   | WNat 2 :: r => c13_assoc r
   | WNat 3 :: r => c13_with_name r
   | WNat 4 :: r => c13_with_suffix r
+  | WNat 5 :: [a; b] =>      (* joinpath(s1, ..., sn) against joinpath(s1)...joinpath(sn): equal observations (or both fail) *)
+      match a, b with
+      | WList _, WList _ => val_eqb a b
+      | WErr _, WErr _ => true
+      | _, _ => false
+      end
   | _ => false
   end.
 
